@@ -384,6 +384,7 @@ type vC35rReq struct {
 type vC35rPM struct {
 	mu     sync.Mutex
 	kind   string // "auth", "nostream", "other", "accept0", "accept1"
+	gates  map[string]chan struct{} // per token: closed when the path manager may answer
 	reqs   map[string]vC35rReq
 	strm0  *stream.Stream
 	strm1  *stream.Stream
@@ -400,7 +401,11 @@ func (p *vC35rPM) rec(a defs.PathAccessRequest) {
 		p.toomany++
 	}
 	p.reqs[tok] = vC35rReq{a.Name, a.Query, a.Publish}
+	gate := p.gates[tok]
 	p.mu.Unlock()
+	if gate != nil {
+		<-gate // the path manager takes its time (it asks an external server, runs a hook, ...)
+	}
 }
 
 func (p *vC35rPM) refusal(name string) error {
@@ -653,6 +658,15 @@ func vC35rFixed() []*vC35rScenario {
 		mk("requests-held", qu, d17, "accept0", []string{"setup-path-a", "subscribe-catalog", "subscribe-0", "subscribe-catalog"},
 			[]string{"start 0", "feed 0", "start 1", "feed 1", "hold", "start 2", "feed 2", "start 3", "feed 3", "release"}),
 		mk("requests-held", wt, d17, "accept1", []string{"setup", "subscribe-catalog", "subscribe-catalog", "subscribe-0"}, after(4)),
+		// a slow path manager: two PUBLISH .catalog requests, a catalog for each, both answers at the end
+		mk("requests-held-slow-pm", wt, d17, "accept0", []string{"setup", "publish-catalog", "publish-catalog", "catalog-0", "catalog-0"},
+			[]string{"pmhold 1", "pmhold 2", "start 0", "feed 0", "hold", "start 1", "feed 1", "start 2", "feed 2", "release",
+				"start 3", "feed 3", "start 4", "feed 4", "pmgo 1", "pmgo 2"}),
+		mk("requests-held-slow-pm", wt, d19, "accept1", []string{"setup", "subscribe-catalog", "subscribe-catalog", "subscribe-0", "publish-catalog"},
+			[]string{"pmhold 1", "pmhold 2", "start 0", "feed 0", "hold", "start 1", "feed 1", "start 2", "feed 2", "start 4", "feed 4", "release",
+				"start 3", "feed 3", "pmgo 2", "pmgo 1"}),
+		mk("requests-held-slow-pm", qu, d16, "auth", []string{"client-setup-path-a", "subscribe-catalog", "publish-catalog", "api"},
+			[]string{"pmhold 1", "pmhold 2", "start 0", "feed 0", "hold", "start 1", "feed 1", "start 2", "feed 2", "release", "start 3", "cancel", "pmgo 1"}),
 		mk("catalogs", wt, d17, "auth", []string{"catalog-0", "catalog-opus", "catalog-codec", "catalog-json", "catalog-many"},
 			vC35rCat(vC35rAll("start", 5), vC35rAll("feed", 5))),
 		mk("catalogs", wt, d17, "accept0", []string{"setup", "publish-catalog", "catalog-codec", "catalog-0"},
@@ -699,8 +713,15 @@ func vC35rRandom(r *vRand) *vC35rScenario {
 	}
 	// per-thread action sequences, merged at random, with hold / release pairs and possibly a cancel
 	var queues [][]string
+	var pmgo []string
 	for i := range sc.threads {
 		q := []string{fmt.Sprintf("start %d", i)}
+		if w := sc.threads[i].what; (strings.Contains(w, "SUBSCRIBE track=\".catalog\"") || strings.Contains(w, "PUBLISH track=\".catalog\"")) && r.Chance(1, 3) {
+			q = []string{fmt.Sprintf("pmhold %d", i), fmt.Sprintf("start %d", i)}
+			if r.Bool() {
+				pmgo = append(pmgo, fmt.Sprintf("pmgo %d", i))
+			}
+		}
 		if sc.threads[i].st != nil {
 			q = append(q, fmt.Sprintf("feed %d", i))
 			if r.Chance(1, 3) {
@@ -747,6 +768,7 @@ func vC35rRandom(r *vRand) *vC35rScenario {
 	if held {
 		sc.script = append(sc.script, "release")
 	}
+	sc.script = append(sc.script, pmgo...)
 	return sc
 }
 
@@ -760,11 +782,13 @@ func vC35rRun(t *testing.T, srv *Server, pm *vC35rPM, sc *vC35rScenario, out *vO
 	script = append(script, vC35rAll("start", n)...)
 	script = append(script, vC35rAll("feed", n)...)
 	script = append(script, vC35rAll("eof", n)...)
+	script = append(script, vC35rAll("pmgo", n)...)
 	script = append(script, "cancel")
 
 	pm.mu.Lock()
 	pm.kind = sc.pm
 	pm.reqs = map[string]vC35rReq{}
+	pm.gates = map[string]chan struct{}{}
 	pm.mu.Unlock()
 
 	cn := &vC35rConn{closed: make(chan struct{}), tr: sc.tr}
@@ -778,6 +802,7 @@ func vC35rRun(t *testing.T, srv *Server, pm *vC35rPM, sc *vC35rScenario, out *vO
 	}
 
 	held := false
+	closePanic := ""
 	var acts, did []string
 	for _, a := range script {
 		var verb string
@@ -788,7 +813,17 @@ func vC35rRun(t *testing.T, srv *Server, pm *vC35rPM, sc *vC35rScenario, out *vO
 			if held {
 				continue
 			}
-			sx.mutex.Lock()
+			// the mutex is free whenever everything is parked (nobody waits inside a critical section); give up
+			// after a while on a tree where this is not so
+			got := false
+			for k := 0; k < 3000 && !got; k++ {
+				if got = sx.mutex.TryLock(); !got {
+					time.Sleep(time.Millisecond)
+				}
+			}
+			if !got {
+				continue
+			}
 			held = true
 			acts = append(acts, "AHold")
 		case "release":
@@ -799,8 +834,45 @@ func vC35rRun(t *testing.T, srv *Server, pm *vC35rPM, sc *vC35rScenario, out *vO
 			held = false
 			acts = append(acts, "ARelease")
 		case "cancel":
-			sx.Close()
+			func() {
+				defer func() {
+					if r := recover(); r != nil {
+						closePanic = fmt.Sprint(r)
+					}
+				}()
+				sx.Close()
+			}()
 			acts = append(acts, "ACancel")
+		case "pmhold":
+			th := sc.threads[i]
+			pm.mu.Lock()
+			_, have := pm.gates[th.token]
+			if th.token != "" && !have && !th.started {
+				pm.gates[th.token] = make(chan struct{})
+			}
+			pm.mu.Unlock()
+			if th.token == "" || have || th.started {
+				continue
+			}
+			acts = append(acts, "APm "+vC35rNat(i)+" false")
+		case "pmgo":
+			th := sc.threads[i]
+			pm.mu.Lock()
+			gate := pm.gates[th.token]
+			open := false
+			if gate != nil {
+				select {
+				case <-gate:
+					open = true
+				default:
+					close(gate)
+				}
+			}
+			pm.mu.Unlock()
+			if gate == nil || open {
+				continue
+			}
+			acts = append(acts, "APm "+vC35rNat(i)+" true")
 		case "start":
 			th := sc.threads[i]
 			if th.started {
@@ -877,7 +949,10 @@ func vC35rRun(t *testing.T, srv *Server, pm *vC35rPM, sc *vC35rScenario, out *vO
 	var obs, streams []string
 	var dThreads []any
 	outcome := "all-returned"
-	for _, th := range sc.threads {
+	for k, th := range sc.threads {
+		if k == 0 && closePanic != "" && th.panicked == "" {
+			th.panicked = "Close() called by the driver: " + closePanic
+		}
 		streams = append(streams, th.coq)
 		resT, errS := "None", ""
 		if th.returned {
